@@ -179,6 +179,36 @@ macro_rules! with_diff {
     }};
 }
 
+/// KF1 identification by input (see exec_inner): the first op of the diff is
+/// a Delete/Insert whose index for the other side is not the start, or the
+/// last op is one whose index for the other side is not the end.
+fn kf1_can_explain(case: &Case) -> bool {
+    use similar::DiffOp;
+    let _guard = SimGuard::new(None, case.text.hasher);
+    let r = guarded(|| {
+        with_diff!(case, |diff| (
+            diff.ops().to_vec(),
+            diff.old_slices().len(),
+            diff.new_slices().len()
+        ))
+    });
+    let (ops, old_len, new_len) = match r {
+        Ok(x) => x,
+        Err(_) => return false,
+    };
+    let first_stale = match ops.first() {
+        Some(DiffOp::Delete { new_index, .. }) => *new_index != 0,
+        Some(DiffOp::Insert { old_index, .. }) => *old_index != 0,
+        _ => false,
+    };
+    let last_stale = match ops.last() {
+        Some(DiffOp::Delete { new_index, .. }) => *new_index != new_len,
+        Some(DiffOp::Insert { old_index, .. }) => *old_index != old_len,
+        _ => false,
+    };
+    first_stale || last_stale
+}
+
 pub struct C05;
 
 const F_SHORT: usize = 0;
@@ -308,9 +338,15 @@ impl C05 {
             Err(f) => {
                 if HEADER_CLAUSES.contains(&f.clause) {
                     // attribution: does the failure disappear if, and only if,
-                    // the Compact swap site repairs its carried indices?
+                    // the Compact swap site repairs its carried indices?  And
+                    // is this an input on which KF1 can reach a hunk header at
+                    // all: the header is taken from the first and the last op
+                    // of a group, and every group boundary inside the diff is
+                    // an Equal op (exact by construction), so only a stale
+                    // Delete/Insert as the very first or very last op of the
+                    // whole diff can be KF1.
                     out.execs += 1;
-                    if self.judge_rendering(case, true).is_ok() {
+                    if self.judge_rendering(case, true).is_ok() && kf1_can_explain(case) {
                         out.known = Some("KF1".into());
                     }
                 }
